@@ -53,7 +53,7 @@ def gen_doc(r):
         elif k < 0.8:
             t = mk('textarea', parent, readonly=flag(0.2), required=flag(), placeholder=r.choice([None, '', 'p']),
                    disabled=flag(0.15), dir=r.choice([None, 'auto']))
-            c = r.choice(['', '\n', 'x', 'שלום'])
+            c = r.choice(['', '\n', 'x', 'שלום', '123', ' (1) ', '\n 7'])
             if c:
                 t.append(bs4.NavigableString(c))
         elif k < 0.84:
@@ -79,14 +79,14 @@ def gen_doc(r):
                 if r.random() < 0.5:
                     control(mk('form', ib))
         else:
-            d = mk('div', parent, contenteditable=r.choice([None, '', 'true', 'TRUE', 'false']))
+            d = mk('div', parent, contenteditable=r.choice([None, '', 'true', 'TRUE', 'false']), dir=r.choice([None, None, 'rtl']))
             control(d)
 
     def block(parent, depth=0):
         for _ in range(r.choice([2, 3, 4, 5] if heavy else [1, 2, 3])):
             k = r.random()
             if k < 0.4:
-                f = mk('form', parent)
+                f = mk('form', parent, dir=r.choice([None, None, 'rtl', 'auto']))
                 for _ in range(r.choice([1, 2, 3, 4])):
                     control(f)
                 if heavy and r.random() < 0.3:
